@@ -95,7 +95,8 @@ def build_coq(log):
     if not os.path.exists(os.path.join(COQ, "Makefile")) or \
             os.path.getmtime(os.path.join(COQ, "Makefile")) < os.path.getmtime(os.path.join(COQ, "_CoqProject")):
         sh("coq_makefile -f _CoqProject -o Makefile", cwd=COQ)
-    rc, out, dt = sh("make -k -j16", timeout=3000, cwd=COQ)
+    # every coqc under a wall-clock and an address-space limit: a runaway file must not stall all checks
+    rc, out, dt = sh("ulimit -v 20000000; make -k -j16 COQC='timeout 1500 coqc'", timeout=3000, cwd=COQ)
     failed = re.findall(r'File "\./(theories/[^"]+)", line (\d+)', out)
     log.append(("coq-make", rc, dt, out[-3000:] if rc else ""))
     return rc == 0, failed, out
@@ -192,9 +193,22 @@ def check_props_file(pid, log):
 # running the two sides
 
 def run_side(binary, case_text, timeout=900, memlimit_kb=12 * 1024 * 1024):
-    cmd = "ulimit -v %d; ulimit -s 2000000 2>/dev/null; exec %s" % (memlimit_kb, binary)
-    rc, out, dt = sh(cmd, timeout=timeout, inp=case_text)
-    return rc, out, dt
+    """Runs one side on the case text.  A death of the process by a runtime resource failure (Go 'fatal error:
+    ... out of memory / cannot allocate / failed to create new OS thread', OCaml Out_of_memory at start-up), which
+    happens at start-up when many checks share the machine, is retried twice; a failure
+    caused by the code under test is deterministic, survives the retries and is reported."""
+    total = 0.0
+    for attempt in range(3):
+        cmd = "ulimit -v %d; ulimit -s 2000000 2>/dev/null; exec %s" % (memlimit_kb, binary)
+        rc, out, dt = sh(cmd, timeout=timeout, inp=case_text)
+        total += dt
+        resource = rc != 0 and rc != 124 and re.search(
+            r"failed to create new OS thread|newosproc|runtime: may need to increase max user processes|"
+            r"Cannot allocate memory|errno=11|errno=12", out) and dt < 30
+        if not resource:
+            break
+        time.sleep(3 + 5 * attempt)
+    return rc, out, total
 
 
 def parse_obs(line):
